@@ -228,3 +228,126 @@ func lemmaC10LessElementIDs(ids ElementIDs, i, j int) {
 func lemmaC10LessFeatureIDs(ids FeatureIDs, i, j int) {
 	vAssert(featureIDsSort(ids).Less(i, j) == (ids[i] < ids[j]))
 }
+
+// The textual form parses back to the same identifier (over contracts of
+// String/Parse* and the trusted text model of strconv/fmt/strings).
+
+//@ func lemmaC10TextRoundTripFeatureNode
+//@   mode bv
+//@   props C10
+//@   nopanic
+//@   requires 0 <= r && r < (1 << 40)
+func lemmaC10TextRoundTripFeatureNode(r int64) {
+	n := NodeID(r).FeatureID()
+	pn, en := ParseFeatureID(n.String())
+	vAssert(en == nil && pn == n)
+}
+
+//@ func lemmaC10TextRoundTripFeatureWay
+//@   mode bv
+//@   props C10
+//@   nopanic
+//@   requires 0 <= r && r < (1 << 40)
+func lemmaC10TextRoundTripFeatureWay(r int64) {
+	w := WayID(r).FeatureID()
+	pw, ew := ParseFeatureID(w.String())
+	vAssert(ew == nil && pw == w)
+}
+
+//@ func lemmaC10TextRoundTripFeatureRelation
+//@   mode bv
+//@   props C10
+//@   nopanic
+//@   requires 0 <= r && r < (1 << 40)
+func lemmaC10TextRoundTripFeatureRelation(r int64) {
+	l := RelationID(r).FeatureID()
+	pl, el := ParseFeatureID(l.String())
+	vAssert(el == nil && pl == l)
+}
+
+//@ func lemmaC10TextRoundTripElementNode
+//@   mode bv
+//@   props C10
+//@   nopanic
+//@   requires 0 <= r && r < (1 << 40) && 0 <= v && v < (1 << 16)
+func lemmaC10TextRoundTripElementNode(r int64, v int) {
+	n := NodeID(r).ElementID(v)
+	pn, en := ParseElementID(n.String())
+	vAssert(en == nil && pn == n)
+}
+
+//@ func lemmaC10TextRoundTripElementWay
+//@   mode bv
+//@   props C10
+//@   nopanic
+//@   requires 0 <= r && r < (1 << 40) && 0 <= v && v < (1 << 16)
+func lemmaC10TextRoundTripElementWay(r int64, v int) {
+	w := WayID(r).ElementID(v)
+	pw, ew := ParseElementID(w.String())
+	vAssert(ew == nil && pw == w)
+}
+
+//@ func lemmaC10TextRoundTripElementRelation
+//@   mode bv
+//@   props C10
+//@   nopanic
+//@   requires 0 <= r && r < (1 << 40) && 0 <= v && v < (1 << 16)
+func lemmaC10TextRoundTripElementRelation(r int64, v int) {
+	l := RelationID(r).ElementID(v)
+	pl, el := ParseElementID(l.String())
+	vAssert(el == nil && pl == l)
+}
+
+//@ func lemmaC10TextRoundTripObjectNode
+//@   mode bv
+//@   props C10
+//@   nopanic
+//@   requires 0 <= r && r < (1 << 40) && 0 <= v && v < (1 << 16)
+func lemmaC10TextRoundTripObjectNode(r int64, v int) {
+	n := NodeID(r).ObjectID(v)
+	pn, en := ParseObjectID(n.String())
+	vAssert(en == nil && pn == n)
+}
+
+//@ func lemmaC10TextRoundTripObjectChangeset
+//@   mode bv
+//@   props C10
+//@   nopanic
+//@   requires 0 <= r && r < (1 << 40)
+func lemmaC10TextRoundTripObjectChangeset(r int64) {
+	c := ChangesetID(r).ObjectID()
+	pc, ec := ParseObjectID(c.String())
+	vAssert(ec == nil && pc == c)
+}
+
+//@ func lemmaC10TextRoundTripObjectUser
+//@   mode bv
+//@   props C10
+//@   nopanic
+//@   requires 0 <= r && r < (1 << 40)
+func lemmaC10TextRoundTripObjectUser(r int64) {
+	u := UserID(r).ObjectID()
+	pu, eu := ParseObjectID(u.String())
+	vAssert(eu == nil && pu == u)
+}
+
+// Text without the kind/ref[:version] shape, or naming an unknown kind, is rejected.
+
+//@ func lemmaC10ParseRejects
+//@   mode bv
+//@   props C10
+//@   nopanic
+func lemmaC10ParseRejects(ref string) {
+	_, e1 := ParseFeatureID("node")
+	vAssert(e1 != nil)
+	_, e2 := ParseFeatureID("node/1/2")
+	vAssert(e2 != nil)
+	_, e3 := ParseFeatureID("tree/" + ref)
+	vAssert(e3 != nil)
+	_, e4 := ParseElementID("way/1:2:3")
+	vAssert(e4 != nil)
+	_, e5 := ParseElementID("changeset/" + ref)
+	vAssert(e5 != nil)
+	_, e6 := ParseObjectID("planet/" + ref)
+	vAssert(e6 != nil)
+}
